@@ -1,6 +1,7 @@
 import PcVerif.Ops.Util
 import PcVerif.Ops.Detect
 import PcVerif.Ops.Base
+import PcVerif.Ops.Geometry
 namespace PcVerif.Ops
-def table : List (String × Proto.Handler) := utilOps ++ detectOps ++ baseOps
+def table : List (String × Proto.Handler) := utilOps ++ detectOps ++ baseOps ++ geoOps
 end PcVerif.Ops
